@@ -17,7 +17,8 @@ for name in sorted(table):
     if sel and not any(name.startswith(s) for s in sel):
         continue
     exp = table[name]["expected"]
-    r = subprocess.run([os.path.join(HERE, "run_mutant.py"), os.path.join(HERE, "mutants", name + ".diff")] + exp,
+    r = subprocess.run([os.path.join(HERE, "run_mutant.py"), os.path.join(HERE, "mutants", name + ".diff")] + exp +
+                       (["--base", table[name]["base"]] if table[name].get("base") else []),
                        capture_output=True, text=True)
     out = r.stdout
     suite = [l for l in out.splitlines() if l.startswith("suite:")]
